@@ -342,8 +342,10 @@ class Spec:
         """JSON-serialisable description (replay files)."""
         def exc(e):
             return None if e is None else [type(e).__name__, str(e)]
+        own = self.content is not None and bank().get(self.content.name) is not self.content    # generated text (css, svg)
         return {'kind': self.kind, 'content': self.content.name if self.content is not None else None,
-                'data': self.content.data.decode('latin-1') if (self.content is not None and self.content.name == 'css') else None,
+                'data': self.content.data.decode('latin-1') if own else None,
+                'xml_ok': bool(self.content.xml_ok) if own else None,
                 'exc': exc(self.exc), 'string': self.string,
                 'file_obj': None if self.file_obj is None else [exc(self.file_obj[0]), self.file_obj[1]],
                 'mime': self.mime, 'has_mime': self.has_mime, 'redirected': self.redirected}
@@ -363,8 +365,8 @@ class Spec:
         content = None
         if d.get('content') is not None:
             if d.get('data') is not None:
-                content = Content(9000, 'css', d['data'].encode('latin-1'))
-                content.xml_ok, content.pil, content.woff, content.woff_ok, content.font_ok = False, None, False, True, False
+                content = Content(9000, d['content'], d['data'].encode('latin-1'))
+                content.xml_ok, content.pil, content.woff, content.woff_ok, content.font_ok = bool(d.get('xml_ok')), None, False, True, False
             else:
                 content = bank()[d['content']]
         file_obj = None if d.get('file_obj') is None else (exc(d['file_obj'][0]), d['file_obj'][1])
